@@ -157,6 +157,16 @@ type exec struct {
 	cancelledDuring bool
 }
 
+// classify is work.Classify, except that context.Canceled is named for what it is here (no client is ever
+// killed in this harness: the error comes from the call's own context).
+func classify(err error) work.ErrClass {
+	cl := work.Classify(err)
+	if cl == work.EKilled {
+		return "context-cancelled"
+	}
+	return cl
+}
+
 func keysOf(ss []string) [][]byte {
 	out := make([][]byte, len(ss))
 	for i, s := range ss {
@@ -374,18 +384,22 @@ func (x *exec) shapeOf(k string) string {
 			acq = i
 		}
 	}
-	if acq < 0 {
-		if len(h) == 0 {
-			return "acq=never/next=untouched"
+	where := "never"
+	if acq >= 0 {
+		where = "plain"
+		if strings.Contains(h[acq].tok, "@agg") {
+			where = "agg"
 		}
-		return "acq=never/next=" + h[0].tok
 	}
-	where := "plain"
-	if strings.Contains(h[acq].tok, "@agg") {
-		where = "agg"
+	tail := h[acq+1:]
+	// a call whose context is dead afterwards explains more than whatever happened first
+	for _, ev := range tail {
+		if strings.Contains(ev.tok, "~ctx-cancelled") {
+			return fmt.Sprintf("acq=%s/next=%s", where, ev.tok)
+		}
 	}
 	retry := ""
-	for _, ev := range h[acq+1:] {
+	for _, ev := range tail {
 		switch ev.tok {
 		case "retry":
 			retry = "after-retry:"
@@ -394,6 +408,9 @@ func (x *exec) shapeOf(k string) string {
 			continue
 		}
 		return fmt.Sprintf("acq=%s/next=%s%s", where, retry, ev.tok)
+	}
+	if acq < 0 {
+		return "acq=never/next=untouched"
 	}
 	return fmt.Sprintf("acq=%s/next=none", where)
 }
@@ -446,8 +463,8 @@ func (x *exec) lockCall(st *Step, sr *stepRes) error {
 		cctx, cdone, _ := x.callCtx(st.Ctx%ctxCancelDuring, "LockKeys")
 		err := x.txn.LockKeys(cctx, lc, keysOf(ks)...)
 		cdone()
-		x.touch(ks, "lock-only:"+string(work.Classify(err)))
-		x.event(ks, "lock-only:"+string(work.Classify(err)), nil)
+		x.touch(ks, "lock-only:"+string(classify(err)))
+		x.event(ks, "lock-only:"+string(classify(err)), nil)
 		return err
 	}
 	// the for-update ts is taken before the contender acts, so that a version committed by the contender is
@@ -505,7 +522,7 @@ func (x *exec) lockCall(st *Step, sr *stepRes) error {
 	if err != nil && st.Ctx != ctxBackground {
 		x.e.r.Count("failed_lock_calls_whose_context_was_cancelled_after_return_or_during", 1)
 	}
-	cl := work.Classify(err)
+	cl := classify(err)
 	if ob != nil {
 		x.endCont(ob, st.ObCommit)
 	}
@@ -534,9 +551,17 @@ func (x *exec) lockCall(st *Step, sr *stepRes) error {
 		if st.LOIE {
 			tok += "{loie}"
 		}
-		tok += ":" + string(cl)
+		if err != nil && st.Ctx != ctxBackground {
+			// one scenario shape whatever the options and the error class: the failed call's context is dead afterwards
+			tok = "lock:failed"
+		} else {
+			tok += ":" + string(cl)
+		}
 		if wasAgg {
 			tok += "@agg"
+		}
+		if err != nil && st.Ctx != ctxBackground {
+			tok += "~ctx-cancelled"
 		}
 		x.event(ks, tok, func(k string) bool { return got[k] })
 	}
@@ -606,7 +631,7 @@ func (x *exec) step(st *Step) {
 	defer func() { x.res = append(x.res, sr) }()
 	x.doTopo(st.Topo)
 	fail := func(err error) {
-		sr.Result = string(work.Classify(err))
+		sr.Result = string(classify(err))
 		sr.Err = errStr(err)
 	}
 	txn := x.txn
@@ -627,7 +652,11 @@ func (x *exec) step(st *Step) {
 		txn.RetryAggressiveLocking(cctx)
 		cdone()
 		x.aggTry++
-		x.aggEvent("retry")
+		if st.Ctx != ctxBackground {
+			x.aggEvent("retry~ctx-cancelled")
+		} else {
+			x.aggEvent("retry")
+		}
 	case kAggCancel:
 		if !txn.IsInAggressiveLockingMode() {
 			sr.Result = "skipped"
@@ -851,7 +880,7 @@ func (e *env) runProgram(idx int, p *Program) (out outcome) {
 		}
 		if !p.Commit || x.cancelledDuring {
 			err := txn.Rollback()
-			endClass, endErr = work.Classify(err), errStr(err)
+			endClass, endErr = classify(err), errStr(err)
 			return
 		}
 		endKind = "commit"
@@ -868,7 +897,7 @@ func (e *env) runProgram(idx int, p *Program) (out outcome) {
 		cctx, cdone, chit := x.callCtx(p.EndCtx, "Commit")
 		err := txn.Commit(cctx)
 		cdone()
-		endClass, endErr = work.Classify(err), errStr(err)
+		endClass, endErr = classify(err), errStr(err)
 		if endOb != nil {
 			x.endCont(endOb, p.EndObCommit)
 		}
@@ -955,6 +984,23 @@ func (e *env) runProgram(idx int, p *Program) (out outcome) {
 		if len(left) > 0 && !u.Quiet() {
 			r.Inconc("%s #%d: locks left but RPCs still pending", cfg, idx)
 			return
+		}
+	}
+	if len(left) > 0 && endClass == work.ENone && strings.HasPrefix(endKind, "commit") {
+		// Back-end anomaly, not a failure-free path: the store acknowledged the prewrite of a key and later
+		// answered the commit of that key with a key error ("lock not found") although nobody but the subject
+		// touched it.  unistore (trusted as given) does this: its prewrite of a pessimistic transaction returns
+		// OK without writing anything ("duplicate command") when a SKIP_PESSIMISTIC_CHECK mutation meets a
+		// pessimistic lock of the same transaction - here one whose asynchronous rollback is still on its way -
+		// where TiKV overwrites that lock.  The client then stops committing secondaries after the key error.
+		for _, c := range u.Log.CallsFrom(x.logStart) {
+			if c.StartTS != x.ts || c.Cmd != tikvrpc.CmdCommit {
+				continue
+			}
+			if cr, ok := c.Resp.(*kvrpcpb.CommitResponse); ok && cr != nil && cr.Error != nil && cr.Error.CommitTsExpired == nil {
+				r.Count("not_judged:store_answered_the_commit_of_a_prewritten_key_with_a_key_error", 1)
+				return
+			}
 		}
 	}
 	if len(left) > 0 {
@@ -1059,7 +1105,7 @@ func (e *env) runProgram(idx int, p *Program) (out outcome) {
 	if p.EndOb != obNone {
 		r.Count("obstacle_during_commit:"+p.EndOb.String(), 1)
 	}
-	r.Distinct(fmt.Sprintf("%s|%s|%s:%s", cfg, strings.Join(shape, ","), endKind, endClass))
+	r.Distinct(fmt.Sprintf("%s|%s|%s~%d:%s", cfg, strings.Join(shape, ","), endKind, p.EndCtx, endClass))
 	cleanupErr := 0
 	for _, c := range calls {
 		own, ok := owners[c.StartTS]
@@ -1127,6 +1173,9 @@ func optTag(s Step) string {
 	}
 	if len(s.Keys) > 1 {
 		t += fmt.Sprint(len(s.Keys))
+	}
+	if s.Ctx != ctxBackground {
+		t += "~" + fmt.Sprint(int(s.Ctx))
 	}
 	return t
 }
